@@ -138,6 +138,26 @@ def cases(tier: str, rng: random.Random) -> List[Case]:
             out.append(std_case(("LazyV", N(0), True), linked(d, bad_at=0 if d else None), m, lazy=rec_node, tag="c:rec", fuel=8 * d + 16))
             out.append(std_case(rec_union[0], nested(d, G.I(7)), m, lazy=rec_union, tag="c:rec", fuel=6 * d + 12))
             out.append(std_case(rec_union[0], nested(d, G.S("x")), m, lazy=rec_union, tag="c:rec", fuel=6 * d + 12))
+    # a not-required key whose validator's payload is itself a Maybe: present with Just(x) is Just(Just(x)), present
+    # with nothing is Just(nothing), absent is absent
+    MB = ("MaybeV", INT)
+    for rec in (("RecordV", [P(G.S("a"), ("KeyNotRequired", MB)), P(G.S("b"), ("KeyNotRequired", ("AlwaysValid",)))], N(2), None, None, False),
+                ("DictAnyV", [P(G.S("a"), ("KeyNotRequired", MB)), P(G.S("b"), ("KeyNotRequired", ("KeyNotRequired", INT)))], None, None, False)):
+        for kv in ([P(G.S("a"), ("VJust", G.I(5)))], [P(G.S("a"), G.NOTHING)], [], [P(G.S("b"), ("VJust", G.I(1)))], [P(G.S("b"), G.NOTHING)],
+                   [P(G.S("a"), ("VJust", G.S("x")))], [P(G.S("b"), G.I(2))]):
+            for m_ in ("sync", "async"):
+                out.append(std_case(rec, ("VDict", kv), m_, tag="a:knr-maybe"))
+    # a union whose last variant accepts anything: earlier variants still come first, with their own payloads
+    STRIP_ = ("Scalar", ("KStr",), None, [("Strip",)], [("PNotBlank",)], [])
+    DEC_ = ("Scalar", ("KDecimal",), Some(("CoDecimal",)), [], [], [])
+    for vs_ in ([STRIP_, ("AlwaysValid",)], [DEC_, ("AlwaysValid",)], [INT, STRIP_, ("AlwaysValid",)], [("ListV", STRIP_, [], [], None), ("AlwaysValid",)],
+                [("AlwaysValid",), STRIP_]):
+        for x_ in (G.S(" a "), G.S("1.50"), G.I(3), G.S("  "), ("VList", [G.S(" q ")]), G.NONE):
+            for m_ in ("sync", "async"):
+                out.append(std_case(("UnionV", vs_), x_, m_, tag="a:trailing-any"))
+    for x_ in (G.NONE, G.I(1), G.S("s")):
+        for m_ in ("sync", "async"):
+            out.append(std_case(("OptionalV", ("NoneV", Some(("CoUser", N(2)))), ("AlwaysValid",)), x_, m_, tag="a:trailing-any"))
     # optionals whose none_validator is the user's own
     for v_, x_ in G.custom_none_cases():
         for m_ in ("sync", "async"):
